@@ -53,6 +53,11 @@ func main() {
 		out := fs.String("out", "", "")
 		fs.Parse(os.Args[3:])
 		os.Exit(vrt.WorkerMain(p, *tier, *seed, *shard, *of, *after, *out))
+	case "aux":
+		if len(os.Args) < 3 || vrt.AuxCmds[os.Args[2]] == nil {
+			usage()
+		}
+		os.Exit(vrt.AuxCmds[os.Args[2]](os.Args[3:]))
 	case "replay":
 		if len(os.Args) < 3 {
 			usage()
